@@ -52,9 +52,14 @@ def quant(v, scale):
 def recipes(tier='quick'):
     """Yield (family, options, builder -> (op, [x values], [d values]))."""
     R = []
+    seen = set()
 
     def add(family, opts, fn):
-        R.append((family, opts, fn))
+        key = (family, tuple(sorted((k, str(v)) for k, v in opts.items())))
+        if key in seen:                 # (family, options) identifies a recipe (replay looks it up by that)
+            return
+        seen.add(key)
+        R.append((family, dict(opts), fn))
     r3 = odl.rn(3)
     r3w = odl.rn(3, weighting=[1.0, 2.0, 0.5])
     c2 = odl.cn(2)
@@ -133,6 +138,7 @@ def recipes(tier='quick'):
                                [1.5, -0.75, 2.25, 0.5, 1, 2, -1, 0.5, 0.25, 3, 1, 1], [0.5, 1, -1.5, 2, 0, 1, 1, 1, -2, 0.5, 0, 1]))
     add('Laplacian', {'pad_mode': 'constant', 'pad_const': 'nonzero'},
         lambda: (odl.Laplacian(d2, pad_mode='constant', pad_const=1.5), [1.5, -0.75, 2.25, 0.5, 1, 2], [0.5, 1, -1.5, 2, 0, 1]))
+    wide_recipes(tier, add)
     return R
 
 
@@ -140,3 +146,303 @@ def make_point(sp, vals):
     if is_field(sp):
         return float(vals[0])
     return _el(sp, vals)
+
+
+# ====================================================================== systematic widening
+# Every constructor option of every class that implements `derivative` gets >= 2 materially different values, crossed
+# (all-pairs in the quick tier) with the space axes.  NO single-precision spaces here: the relational clause works with
+# h = 2^-6 .. 2^-8, whose central differences drown in float32 rounding.  On complex spaces only holomorphic maps
+# (powers, analytic ufuncs and their combinations) plus the operators that document the C = R^2 convention
+# (ComplexModulus, ComplexModulusSquared: real range) are listed.
+XR = [1.5, 0.75, 2.25, 0.5, 1.25, 1.75, 0.625, 2.5, 1.125, 0.875, 2.125, 1.375,
+      1.625, 0.5625, 2.375, 0.6875, 1.3125, 1.875, 0.8125, 2.625, 1.0625, 0.9375, 2.0625, 1.4375]
+DR = [0.5, 1.0, -1.5, 2.0, -0.25, 0.75, 1.0, -1.0, 0.5, -0.5, 1.5, -2.0,
+      -0.75, 0.25, 1.25, -1.25, 0.5, 1.0, -0.5, 2.0, -1.5, 0.75, 0.25, -1.0]
+XC = [1 + 2j, -0.5 + 1j, 1.5 - 0.75j, 0.75 + 0.5j, 2 - 1j, -1.25 - 0.5j,
+      0.5 + 1.5j, -1 + 0.75j, 1.25 - 1.5j, 0.625 + 0.25j, 1.75 - 0.5j, -0.75 - 1.25j] * 2
+DC = [0.5 - 1j, 1 + 0.25j, -1.5 + 0.5j, 2j, -0.25 - 1j, 0.75,
+      -1 + 1j, 0.25 - 0.5j, 1.5 + 1j, -2j, 0.5 + 0.75j, -0.75 + 0.25j] * 2
+
+
+def _pts(sp, positive=True):
+    """(x values, d values) for make_point: generic, away from 0 / 1 / kinks."""
+    from .linops import is_complex
+    if is_field(sp):
+        return ([1.5], [0.5])
+    if is_complex(sp):
+        return (XC, DC)
+    return (XR, DR)
+
+
+def wide_recipes(tier, add):
+    from collections import OrderedDict as OD
+    from odl.util import COOMatrix
+    from . import catutil as U
+    from .linops import _space_axes, _combos, _sp, _o
+    S = odl.solvers
+    vec, posvec = U.vec, U.posvec
+    dbl = dict(precs=('double',))
+
+    # ---------------------------------------------------------------- default_ops
+    def pow_ok(c):
+        # non-integer powers: positive real base points (principal branch, no kink), complex: integer powers only
+        return c['field'] == 'real' or c['exponent'] in ('2', '3', '1', '-1', '0')
+    for c in _combos(tier, OD([('exponent', ['1', '2', '3', '0.5', '-1', '1.5', '0', '-0.5'])]), _space_axes(**dbl), pow_ok):
+        lab, sp = _sp(c)
+        add('PowerOperator', _o(c, lab, 'exponent'), lambda sp=sp, p=float(c['exponent']): (odl.PowerOperator(sp, p),) + _pts(sp))
+    for p in ('2', '3', '0.5', '-1'):
+        add('PowerOperator', {'space': 'field-real', 'exponent': p},
+            lambda p=float(p): (odl.PowerOperator(odl.RealNumbers(), p), [1.5], [0.5]))
+    add('PowerOperator', {'space': 'field-complex', 'exponent': '2'},
+        lambda: (odl.PowerOperator(odl.ComplexNumbers(), 2), [1.5], [0.5]))
+    for c in _combos(tier, OD(), _space_axes(fields=('real',), **dbl)):
+        lab, sp = _sp(c)
+        add('NormOperator', _o(c, lab), lambda sp=sp: (odl.NormOperator(sp),) + _pts(sp))
+        add('DistOperator', _o(c, lab), lambda sp=sp: (odl.DistOperator(vec(sp)),) + _pts(sp))
+    for form in ('power2', 'general', 'nested'):
+        for w in ('none', 'const', 'array'):
+            def ps(form=form, w=w):
+                return U.mk_pspace(odl.rn(2), form, w)
+            o = {'space': 'pspace-' + form, 'pspace-weighting': w}
+            add('NormOperator', o, lambda ps=ps: (odl.NormOperator(ps()), XR, DR))
+            add('DistOperator', o, lambda ps=ps: (odl.DistOperator(vec(ps())), XR, DR))
+            add('PowerOperator', dict(o, exponent='2'), lambda ps=ps: (odl.PowerOperator(ps(), 2), XR, DR))
+    for c in _combos(tier, OD([('domain', ['default', 'given', 'other']), ('range', ['default', 'given']),
+                               ('constant', ['element', 'array-like'])]), _space_axes(**dbl),
+                     lambda c: c['constant'] == 'element' or c['range'] == 'given'):
+        lab, sp = _sp(c)
+
+        def mk(sp=sp, c=c):
+            kw = {}
+            if c['domain'] == 'given':
+                kw['domain'] = sp
+            elif c['domain'] == 'other':
+                kw['domain'] = odl.tensor_space(2, dtype=sp.dtype)
+            if c['range'] == 'given':
+                kw['range'] = sp
+            const = vec(sp) if c['constant'] == 'element' else vec(sp).asarray().tolist()
+            if c['constant'] != 'element' and 'domain' not in kw:
+                kw['domain'] = sp
+            op = odl.ConstantOperator(const, **kw)
+            return (op,) + _pts(op.domain)
+        add('ConstantOperator', _o(c, lab, 'domain', 'range', 'constant'), mk)
+    for c in _combos(tier, OD(), _space_axes(fields=('complex',), **dbl)):
+        lab, sp = _sp(c)
+        add('ComplexModulus', _o(c, lab), lambda sp=sp: (odl.ComplexModulus(sp), XC, DC))
+        add('ComplexModulusSquared', _o(c, lab), lambda sp=sp: (odl.ComplexModulusSquared(sp), XC, DC))
+
+    # ---------------------------------------------------------------- expression classes around nonlinear leaves
+    # (direct constructors with their temporaries; the overload spellings are the business of C04/C06 part A)
+    def leafs(sp):
+        P2 = odl.PowerOperator(sp, 2)
+        P3 = odl.PowerOperator(sp, 3)
+        A = odl.ScalingOperator(sp, 3.0) + vec(sp)
+        E = odl.ufunc_ops.exp(sp) if sp.is_real else odl.ufunc_ops.sin(sp)
+        return P2, P3, A, E
+    WR = OD([
+        ('Sum', lambda sp, L: odl.OperatorSum(L[0], L[3])),
+        ('Sum-tmp_ran', lambda sp, L: odl.OperatorSum(L[0], L[3], tmp_ran=sp.element())),
+        ('Sum-tmp_dom', lambda sp, L: odl.OperatorSum(L[0], L[3], tmp_dom=sp.element())),
+        ('Sum-tmp_both', lambda sp, L: odl.OperatorSum(L[0], L[3], sp.element(), sp.element())),
+        ('Comp', lambda sp, L: odl.OperatorComp(L[0], L[2])),
+        ('Comp-nonlinear-inner', lambda sp, L: odl.OperatorComp(L[2], L[1])),
+        ('Comp-both-nonlinear', lambda sp, L: odl.OperatorComp(L[0], L[1])),
+        ('Comp-tmp', lambda sp, L: odl.OperatorComp(L[0], L[1], tmp=sp.element())),
+        ('LeftScalarMult', lambda sp, L: odl.OperatorLeftScalarMult(L[1], -2.0)),
+        ('LeftScalarMult-zero', lambda sp, L: odl.OperatorLeftScalarMult(L[1], 0.0)),
+        ('RightScalarMult', lambda sp, L: odl.OperatorRightScalarMult(L[1], -0.5)),
+        ('RightScalarMult-tmp', lambda sp, L: odl.OperatorRightScalarMult(L[1], 1.5, tmp=sp.element())),
+        ('LeftVectorMult', lambda sp, L: odl.OperatorLeftVectorMult(L[1], vec(sp))),
+        ('RightVectorMult', lambda sp, L: odl.OperatorRightVectorMult(L[1], vec(sp))),
+        ('VectorSum', lambda sp, L: odl.OperatorVectorSum(L[1], vec(sp))),
+        ('PointwiseProduct', lambda sp, L: odl.OperatorPointwiseProduct(L[0], L[2])),
+        ('PointwiseProduct-both-nonlinear', lambda sp, L: odl.OperatorPointwiseProduct(L[1], L[3])),
+        ('depth2', lambda sp, L: odl.OperatorComp(odl.OperatorSum(L[0], L[2]), odl.OperatorRightVectorMult(L[1], vec(sp)))),
+    ])
+    for c in _combos(tier, OD([('wrap', list(WR))]), _space_axes(**dbl)):
+        lab, sp = _sp(c)
+        add('expr', _o(c, lab, 'wrap'), lambda sp=sp, w=c['wrap']: (WR[w](sp, leafs(sp)),) + _pts(sp))
+    # complex scalars in the scalar multiples (holomorphic leaves on complex spaces)
+    for sn, a in (('complex-general', 1.5 - 2j), ('imag', 2j)):
+        add('expr', {'wrap': 'LeftScalarMult', 'space': 'cn', 'scalar': sn},
+            lambda a=a: (odl.OperatorLeftScalarMult(odl.PowerOperator(odl.cn(3), 3), a), XC, DC))
+        add('expr', {'wrap': 'RightScalarMult', 'space': 'cn', 'scalar': sn},
+            lambda a=a: (odl.OperatorRightScalarMult(odl.PowerOperator(odl.cn(3), 3), a), XC, DC))
+    # different domain and range (temporaries live in different spaces): sum / composition of R^3 -> R^2 operators
+    M = odl.MatrixOperator(np.array([[1.0, 2.0, 0.0], [-1.0, 0.5, 3.0]]))
+
+    def nl32():
+        return odl.OperatorComp(M, odl.PowerOperator(odl.rn(3), 2)), odl.OperatorComp(odl.PowerOperator(odl.rn(2), 3), M)
+    add('expr', {'wrap': 'Sum', 'maps': 'R3->R2'}, lambda: (odl.OperatorSum(*nl32()), XR, DR))
+    add('expr', {'wrap': 'Sum-tmp_ran', 'maps': 'R3->R2'}, lambda: (odl.OperatorSum(*nl32(), tmp_ran=odl.rn(2).element()), XR, DR))
+    add('expr', {'wrap': 'Sum-tmp_dom', 'maps': 'R3->R2'}, lambda: (odl.OperatorSum(*nl32(), tmp_dom=odl.rn(3).element()), XR, DR))
+    add('expr', {'wrap': 'Sum-tmp_both', 'maps': 'R3->R2'},
+        lambda: (odl.OperatorSum(*nl32(), tmp_ran=odl.rn(2).element(), tmp_dom=odl.rn(3).element()), XR, DR))
+    add('expr', {'wrap': 'Comp-tmp', 'maps': 'R3->R2'},
+        lambda: (odl.OperatorComp(odl.PowerOperator(odl.rn(2), 3), nl32()[0], tmp=odl.rn(2).element()), XR, DR))
+    add('expr', {'wrap': 'RightScalarMult-tmp', 'maps': 'R3->R2'},
+        lambda: (odl.OperatorRightScalarMult(nl32()[0], -0.5, tmp=odl.rn(3).element()), XR, DR))
+    for c in _combos(tier, OD([('functional', ['L2NormSquared', 'L2Norm', 'KullbackLeibler'])]), _space_axes(fields=('real',), **dbl)):
+        lab, sp = _sp(c)
+        f = {'L2NormSquared': lambda sp: S.L2NormSquared(sp), 'L2Norm': lambda sp: S.L2Norm(sp),
+             'KullbackLeibler': lambda sp: S.KullbackLeibler(sp, prior=posvec(sp))}[c['functional']]
+        add('FunctionalLeftVectorMult', _o(c, lab, 'functional'),
+            lambda sp=sp, f=f: (odl.FunctionalLeftVectorMult(f(sp), vec(sp)),) + _pts(sp))
+
+    # ---------------------------------------------------------------- ufunc operators with a closed-form derivative
+    UF = ['sin', 'cos', 'tan', 'sqrt', 'square', 'log', 'exp', 'reciprocal', 'sinh', 'cosh']
+    for c in _combos(tier, OD([('ufunc', UF)]), _space_axes(**dbl)):
+        lab, sp = _sp(c)
+        name = c['ufunc']
+        if sp.is_real:
+            xs = [0.3, -0.4, 0.2, 0.45, -0.25, 0.35] if name == 'tan' else XR
+            ds = DR
+        else:
+            # away from branch cuts (sqrt / log: negative real axis) and poles
+            xs = [1 + 0.5j, 0.5 + 1j, 1.5 - 0.75j, 0.75 + 0.5j, 2 - 1j, 1.25 + 0.5j]
+            if name == 'tan':
+                xs = [0.3 + 0.2j, -0.4 + 0.1j, 0.2 - 0.3j]
+            ds = DC
+        add('ufunc_ops.' + name, _o(c, lab), lambda sp=sp, name=name, xs=xs, ds=ds: (getattr(odl.ufunc_ops, name)(sp), xs, ds))
+
+    # ---------------------------------------------------------------- PointwiseNorm
+    PWW = {'none': None, 'unit-scalar': 1.0, 'unit-array': 'ones', 'scalar': 2.0, 'array': 'arr'}
+    BASES = {'rn': lambda: odl.rn(2), 'rn-array': lambda: odl.rn(2, weighting=[1.0, 4.0]),
+             'discr2d': lambda: U.mk_space('discr', shape='2d')[1], 'discr-bdry': lambda: U.mk_space('discr', bdry='asym')[1]}
+    for c in U.cross(tier, OD([('exponent', ['default', '1', '2', '3', '1.5', 'default-from-space']),
+                               ('pspace-weighting', ['none', 'const', 'array']), ('op-weighting', list(PWW)),
+                               ('length', ['1', '2', '3']), ('base', list(BASES))])):
+        n = int(c['length'])
+
+        def mk(c=c, n=n):
+            base = BASES[c['base']]()
+            ex = 3.0 if c['exponent'] == 'default-from-space' else None
+            vf = U.mk_pspace(base, 'power%d' % n, c['pspace-weighting'], exponent=ex)
+            w = PWW[c['op-weighting']]
+            w = [1.0] * n if w == 'ones' else ([2.0, 0.5, 4.0][:n] if w == 'arr' else w)
+            kw = {} if w is None else {'weighting': w}
+            if c['exponent'] not in ('default', 'default-from-space'):
+                kw['exponent'] = float(c['exponent'])
+            return (odl.PointwiseNorm(vf, **kw), XR, DR)
+        add('PointwiseNorm', dict(c), mk)
+
+    # ---------------------------------------------------------------- block operators with nonlinear blocks
+    def nblocks(field):
+        X = odl.cn(2) if field == 'complex' else odl.rn(2)
+        return {'X': X, 'P2': odl.PowerOperator(X, 2), 'P3': odl.PowerOperator(X, 3), 'SIN': odl.ufunc_ops.sin(X),
+                'A': odl.ScalingOperator(X, 3.0) + vec(X), 'I': odl.IdentityOperator(X),
+                'EXP': odl.ufunc_ops.exp(X) if field == 'real' else odl.ufunc_ops.cos(X)}
+    LAY = OD([('full-2x2', lambda B: ([(0, 0, B['P2']), (0, 1, B['SIN']), (1, 0, B['P3']), (1, 1, B['A'])], (2, 2))),
+              ('offdiag-only', lambda B: ([(0, 1, B['P3']), (1, 0, B['SIN'])], (2, 2))),
+              ('with-None', lambda B: ([(0, 0, B['I']), (0, 1, B['P3']), (1, 1, B['SIN'])], (2, 2))),
+              ('lower-tri-3x3', lambda B: ([(0, 0, B['P2']), (1, 0, B['SIN']), (1, 1, B['I']), (2, 0, B['P3']), (2, 1, B['EXP']),
+                                           (2, 2, B['A'])], (3, 3))),
+              ('single-row', lambda B: ([(0, 0, B['P3']), (0, 1, B['SIN']), (0, 2, B['A'])], (1, 3))),
+              ('single-col', lambda B: ([(0, 0, B['P3']), (1, 0, B['SIN']), (2, 0, B['A'])], (3, 1))),
+              ('empty-row', lambda B: ([(0, 0, B['P2']), (0, 1, B['P3'])], (2, 2))),
+              ('empty-col', lambda B: ([(0, 0, B['P2']), (1, 0, B['P3'])], (2, 2)))])
+
+    def pso(layout, form, field, given):
+        B = nblocks(field)
+        ent, shape = LAY[layout](B)
+        kw = {}
+        if given == 'given' or layout in ('empty-row', 'empty-col'):
+            kw = {'domain': odl.ProductSpace(B['X'], shape[1]), 'range': odl.ProductSpace(B['X'], shape[0])}
+        if form.startswith('list'):
+            rows = [[None if form == 'list' else 0] * shape[1] for _ in range(shape[0])]
+            for i, j, op in ent:
+                rows[i][j] = op
+            return odl.ProductSpaceOperator(rows, **kw)
+        ent = sorted(ent, key=(lambda e: (e[0], e[1])) if form == 'coo-row-major' else (lambda e: (e[1], e[0])))
+        if form == 'coo-reversed':
+            ent = ent[::-1]
+        data = np.empty(len(ent), dtype=object)
+        data[:] = [e[2] for e in ent]
+        return odl.ProductSpaceOperator(COOMatrix(data, ([e[0] for e in ent], [e[1] for e in ent]), shape), **kw)
+    for c in U.cross(tier, OD([('blocks', list(LAY)), ('form', ['list', 'list-zeros', 'coo-row-major', 'coo-col-major', 'coo-reversed']),
+                               ('field', ['real', 'complex']), ('spaces', ['inferred', 'given'])])):
+        xs, ds = (XC, DC) if c['field'] == 'complex' else (XR, DR)
+        add('ProductSpaceOperator', dict(c, nonlinear='yes'),
+            lambda c=c, xs=xs, ds=ds: (pso(c['blocks'], c['form'], c['field'], c['spaces']), xs, ds))
+    for fld in ('real', 'complex'):
+        xs, ds = (XC, DC) if fld == 'complex' else (XR, DR)
+        add('ProductSpaceOperator', {'blocks': 'nested', 'field': fld, 'nonlinear': 'yes'},
+            lambda fld=fld, xs=xs, ds=ds: (odl.ProductSpaceOperator([[pso('full-2x2', 'list', fld, 'inferred'), pso('offdiag-only', 'coo-col-major', fld, 'inferred')],
+                                                                     [None, pso('with-None', 'list', fld, 'inferred')]]), xs, ds))
+        for pn in ('two', 'one', 'three', 'int-form', 'same-twice'):
+            def parts(fld=fld, pn=pn):
+                B = nblocks(fld)
+                return {'two': (B['P2'], B['A']), 'one': (B['P3'],), 'three': (B['SIN'], B['P3'], B['I']), 'int-form': (B['P3'], 3),
+                        'same-twice': (B['SIN'], B['SIN'])}[pn]
+            o = {'parts': pn, 'field': fld, 'nonlinear': 'yes'}
+            add('BroadcastOperator', o, lambda parts=parts, xs=xs, ds=ds: (odl.BroadcastOperator(*parts()), xs, ds))
+            add('ReductionOperator', o, lambda parts=parts, xs=xs, ds=ds: (odl.ReductionOperator(*parts()), xs, ds))
+            add('DiagonalOperator', o, lambda parts=parts, xs=xs, ds=ds: (odl.DiagonalOperator(*parts()), xs, ds))
+
+            def dgiven(parts=parts):
+                ops = parts()
+                n = ops[1] if len(ops) > 1 and isinstance(ops[1], int) else len(ops)
+                X = ops[0].domain
+                return odl.DiagonalOperator(*ops, domain=odl.ProductSpace(X, n), range=odl.ProductSpace(X, n))
+            add('DiagonalOperator', dict(o, spaces='given'), lambda dgiven=dgiven, xs=xs, ds=ds: (dgiven(), xs, ds))
+
+    # ---------------------------------------------------------------- affine finite differences / resizing (pad_const != 0)
+    DSH = {'1d': (4,), '2d': (3, 4), '3d': (2, 3, 2)}
+    DSD = {'1d': [0.5], '2d': [0.5, 2.0], '3d': [0.5, 1.0, 2.0]}
+    dsp_axes = _space_axes(kinds=('discr',), precs=('double',))
+    PC = {'pos': 2.0, 'neg': -1.5, 'complex': 1 - 2j}
+
+    def pc_ok(c):
+        return c['pad_const'] != 'complex' or c['field'] == 'complex'
+    for c in _combos(tier, OD([('method', ['forward', 'backward', 'central']), ('axis', ['first', 'last', 'neg-last']),
+                               ('pad_const', list(PC)), ('range', ['default', 'given'])]), dsp_axes, pc_ok):
+        lab, sp = _sp(c, shapes=DSH, sides=DSD)
+        ax = {'first': 0, 'last': sp.ndim - 1, 'neg-last': -1}[c['axis']]
+        kw = {'range': sp} if c['range'] == 'given' else {}
+        add('PartialDerivative', _o(c, lab, 'method', 'axis', 'pad_const', 'range', pad_mode='constant'),
+            lambda sp=sp, ax=ax, c=c, kw=kw: (odl.PartialDerivative(sp, ax, method=c['method'], pad_mode='constant', pad_const=PC[c['pad_const']], **kw),) + _pts(sp))
+    for c in _combos(tier, OD([('method', ['forward', 'backward', 'central']), ('pad_const', list(PC)), ('spaces', ['domain', 'range', 'both'])]),
+                     dsp_axes, pc_ok):
+        lab, sp = _sp(c, shapes=DSH, sides=DSD)
+
+        def mkg(sp=sp, c=c):
+            kw = dict(method=c['method'], pad_mode='constant', pad_const=PC[c['pad_const']])
+            vf = odl.ProductSpace(sp, sp.ndim)
+            op = {'domain': lambda: odl.Gradient(sp, **kw), 'range': lambda: odl.Gradient(range=vf, **kw), 'both': lambda: odl.Gradient(sp, vf, **kw)}[c['spaces']]()
+            return (op,) + _pts(sp)
+
+        def mkd(sp=sp, c=c):
+            kw = dict(method=c['method'], pad_mode='constant', pad_const=PC[c['pad_const']])
+            vf = odl.ProductSpace(sp, sp.ndim)
+            op = {'domain': lambda: odl.Divergence(vf, **kw), 'range': lambda: odl.Divergence(range=sp, **kw), 'both': lambda: odl.Divergence(vf, sp, **kw)}[c['spaces']]()
+            return (op,) + _pts(sp)
+        o = _o(c, lab, 'method', 'pad_const', 'spaces', pad_mode='constant')
+        add('Gradient', o, mkg)
+        add('Divergence', o, mkd)
+    for c in _combos(tier, OD([('pad_const', list(PC)), ('range', ['default', 'given'])]), dsp_axes, pc_ok):
+        lab, sp = _sp(c, shapes=DSH, sides=DSD)
+        kw = {'range': sp} if c['range'] == 'given' else {}
+        add('Laplacian', _o(c, lab, 'pad_const', 'range', pad_mode='constant'),
+            lambda sp=sp, c=c, kw=kw: (odl.Laplacian(sp, pad_mode='constant', pad_const=PC[c['pad_const']], **kw),) + _pts(sp))
+    RSH = {'1d': (4,), '2d': (2, 3)}
+    TGT = {('1d', 'extend'): (6,), ('1d', 'restrict'): (2,), ('2d', 'extend'): (3, 4), ('2d', 'mixed'): (3, 2), ('2d', 'one-axis'): (2, 5)}
+    for c in _combos(tier, OD([('how', ['ran_shp', 'range']), ('dir', ['extend', 'restrict', 'mixed', 'one-axis']), ('pad_const', list(PC)),
+                               ('offset', ['default', 'one'])]), _space_axes(kinds=('discr',), precs=('double',), shapes=('1d', '2d')),
+                     lambda c: pc_ok(c) and (c['shape'], c['dir']) in TGT and (c['how'] == 'ran_shp' or c['offset'] == 'default')):
+        lab, sp = _sp(c, shapes=RSH)
+
+        def mk(sp=sp, c=c):
+            tgt = TGT[(c['shape'], c['dir'])]
+            kw = {'pad_mode': 'constant', 'pad_const': PC[c['pad_const']]}
+            if c['how'] == 'ran_shp':
+                if c['offset'] == 'one':
+                    kw['offset'] = [1] + [0] * (sp.ndim - 1)
+                op = odl.ResizingOperator(sp, ran_shp=tgt, **kw)
+            else:
+                op = odl.ResizingOperator(sp, odl.ResizingOperator(sp, ran_shp=tgt).range, **kw)
+            return (op,) + _pts(sp)
+        try:
+            mk()
+        except ValueError:
+            continue
+        add('ResizingOperator', _o(c, lab, 'how', 'dir', 'pad_const', 'offset', pad_mode='constant'), mk)
